@@ -228,8 +228,8 @@ class Machine:
             if h is None:
                 continue
             modpath = name[:ms[0].start()]
-            if len(ms) > 1:
-                continue  # nested impls (serde derive internals)
+            if len(ms) > 1 and not (h[0] == 'derive' and h[1] in ('Default', 'Clone', 'PartialEq', 'Eq', 'PartialOrd', 'Ord', 'Hash')):
+                continue  # nested impls (serde derive internals); derives on function-local types are kept
             params, ret = self.mir.signature(name)
             if h[0] == 'derive':
                 trait = h[1]
@@ -311,7 +311,8 @@ class Machine:
         self.resolve_cache[raw] = r
         return r
 
-    def _resolve(self, raw):
+    def candidate(self, raw):
+        """name resolution only: the MIR function a callee text denotes, or None"""
         c = self.callee(raw)
         mir = self.mir
         # exact
@@ -345,6 +346,19 @@ class Machine:
                             if mir.has(t):
                                 cand = t
                                 break
+        if cand is None:
+            # 'mod::<impl some::Type>::method' (how a body refers to items nested in an inherent method)
+            m = re.match(r'^(.*?)<impl ([^<>]+)>::(.+)$', strip_lifetimes(raw))
+            if m:
+                alias = m.group(1) + m.group(2).rsplit('::', 1)[-1] + '::' + m.group(3)
+                if alias in self.inherent_alias:
+                    cand = self.inherent_alias[alias]
+        return cand
+
+    def _resolve(self, raw):
+        c = self.callee(raw)
+        mir = self.mir
+        cand = self.candidate(raw)
         if cand is not None:
             key = strip_all_generics(strip_lifetimes(cand)) if not cand.startswith('<') else cand
             for k in (cand, key, c.key):
@@ -834,10 +848,13 @@ class Path:
         m = re.match(r'(.*)::(promoted\[\d+\])$', path)
         if m:
             r = Mx.resolve(m.group(1))
-            if r[0] == 'mir':
-                cand = r[1] + '::' + m.group(2)
+            base = r[1] if r[0] == 'mir' else Mx.candidate(m.group(1))
+            if base:
+                cand = base + '::' + m.group(2)
                 if Mx.mir.has(cand):
                     return self.run_fn(Mx.mir.get(cand), [])
+        if p in ('std::ops::RangeFull', 'core::ops::RangeFull'):
+            return Agg('std::ops::RangeFull', [])
         if p in ('std::time::UNIX_EPOCH', 'std::time::SystemTime::UNIX_EPOCH'):
             return Opaque('Instant', None)
         if p in LIBC_CONSTS:
